@@ -4,11 +4,17 @@
 package main
 
 import (
+	"bytes"
 	"context"
 	"encoding/json"
 	"errors"
 	"fmt"
+	"os"
+	"os/exec"
 	"sort"
+	"strings"
+	"sync"
+	"sync/atomic"
 	"time"
 
 	"github.com/alicebob/miniredis/v2"
@@ -217,14 +223,137 @@ func runOp(st backend, c *clockCtl, o step) map[string]any {
 }
 
 type behaviour struct {
-	Backend string `json:"backend"`
-	Steps   []step `json:"steps"`
+	Backend string   `json:"backend"`
+	Steps   []step   `json:"steps,omitempty"`
+	Prog    [][]step `json:"prog,omitempty"` // concurrent program: one script per client goroutine
+	Rep     int      `json:"rep,omitempty"`
+	Hammer  string   `json:"hammer,omitempty"` // "hash": tight concurrent loops on one hash key (no per-op events)
+}
+
+// ---- concurrent part: runs in a child process so that a fatal runtime error ("concurrent map
+// read and map write" cannot be recovered) is observed by the parent instead of killing the check.
+
+func childMain() {
+	var beh behaviour
+	if err := json.NewDecoder(os.Stdin).Decode(&beh); err != nil {
+		fmt.Fprintln(os.Stderr, "child: bad input:", err)
+		os.Exit(3)
+	}
+	ctx, cancel := context.WithCancel(context.Background())
+	defer cancel()
+	m := memory.New(ctx)
+	c := &clockCtl{short: shortTTL}
+	var seq atomic.Int64
+	type rec struct {
+		seq int64
+		ev  fw.Event
+	}
+	n := len(beh.Prog)
+	if beh.Hammer != "" {
+		n = 4
+	}
+	bufs := make([][]rec, n)
+	start := make(chan struct{})
+	var wg sync.WaitGroup
+	for p := 0; p < n; p++ {
+		wg.Add(1)
+		go func(p int) {
+			defer wg.Done()
+			name := fmt.Sprintf("p%d", p+1)
+			<-start
+			if beh.Hammer == "hash" {
+				deadline := time.Now().Add(120 * time.Millisecond)
+				for i := 0; time.Now().Before(deadline); i++ {
+					switch p {
+					case 0:
+						m.SetHash("h1", fmt.Sprintf("f%d", i%64), "x")
+					case 1:
+						m.DeleteHash("h1", fmt.Sprintf("f%d", i%64))
+					case 2:
+						m.GetAllHash("h1")
+					case 3:
+						m.GetHash("h1", "f1")
+					}
+				}
+				return
+			}
+			for _, o := range beh.Prog[p] {
+				s1 := seq.Add(1)
+				bufs[p] = append(bufs[p], rec{s1, fw.Event{"ev": "Call", "p": name, "o": o}})
+				r := runOp(m, c, o)
+				s2 := seq.Add(1)
+				bufs[p] = append(bufs[p], rec{s2, fw.Event{"ev": "Ret", "p": name, "o": o, "res": r, "be": "memory"}})
+			}
+		}(p)
+	}
+	close(start)
+	wg.Wait()
+	var all []rec
+	for _, b := range bufs {
+		all = append(all, b...)
+	}
+	sort.Slice(all, func(i, j int) bool { return all[i].seq < all[j].seq })
+	enc := json.NewEncoder(os.Stdout)
+	for _, r := range all {
+		enc.Encode(r.ev)
+	}
+	fmt.Println(`{"ev":"ChildDone"}`)
+}
+
+func driveConc(beh behaviour, raw []byte) *fw.Trace {
+	exe, err := os.Executable()
+	if err != nil {
+		return &fw.Trace{Status: fw.DriverError, Note: err.Error()}
+	}
+	ctx, cancel := context.WithTimeout(context.Background(), 30*time.Second)
+	defer cancel()
+	cmd := exec.CommandContext(ctx, exe, "--child")
+	cmd.Stdin = bytes.NewReader(raw)
+	var out, errb bytes.Buffer
+	cmd.Stdout, cmd.Stderr = &out, &errb
+	runErr := cmd.Run()
+	t := &fw.Trace{Status: fw.Realised}
+	done := false
+	for _, line := range bytes.Split(out.Bytes(), []byte("\n")) {
+		if len(bytes.TrimSpace(line)) == 0 {
+			continue
+		}
+		var e fw.Event
+		if json.Unmarshal(line, &e) != nil {
+			continue
+		}
+		if e["ev"] == "ChildDone" {
+			done = true
+			continue
+		}
+		t.Events = append(t.Events, e)
+	}
+	if done && runErr == nil {
+		return t
+	}
+	stderr := errb.String()
+	// DESIGN.md §5 C13: the Go runtime's own report of an unsynchronised map access is the one
+	// driver death that is a verdict (atomicity clause); anything else is a harness failure.
+	for _, what := range []string{"concurrent map read and map write", "concurrent map writes", "concurrent map iteration and map write"} {
+		if strings.Contains(stderr, "fatal error: "+what) {
+			// keep only complete call/return pairs seen before the crash out of the trace: the judge needs none
+			t.Events = []fw.Event{{"ev": "Fatal", "what": strings.ReplaceAll(what, " ", "-"), "be": "memory"}}
+			return t
+		}
+	}
+	if len(stderr) > 600 {
+		stderr = stderr[:600]
+	}
+	return &fw.Trace{Status: fw.DriverError, Note: fmt.Sprintf("child failed: %v: %s", runErr, stderr)}
 }
 
 func drive(env *fw.Env, b fw.Behaviour) *fw.Trace {
 	var beh behaviour
 	if err := json.Unmarshal(b.Data, &beh); err != nil {
 		return &fw.Trace{Status: fw.DriverError, Note: err.Error()}
+	}
+	if beh.Prog != nil || beh.Hammer != "" {
+		return driveConc(beh, b.Data)
 	}
 	ctx, cancel := context.WithCancel(context.Background())
 	defer cancel()
@@ -344,6 +473,10 @@ func probes(steps []step) []step {
 }
 
 func main() {
+	if len(os.Args) > 1 && os.Args[1] == "--child" {
+		childMain()
+		return
+	}
 	fw.Main(&fw.Property{
 		ID:        "C13",
 		DesignRef: "DESIGN.md §5 C13",
@@ -357,10 +490,34 @@ func main() {
 			for _, c := range cfgs {
 				jobs = append(jobs, fw.TLCJob{Name: "gen:" + c, Module: "KV", Cfg: c, Consts: map[string]string{"EMIT": "TRUE"}, Workers: 4})
 			}
+			// concurrent programs (3 clients x 3 operations per key-type family), drawn by TLC simulation
+			num := "num=12"
+			if env.Tier == "thorough" {
+				num = "num=150"
+			}
+			for i, keys := range []string{`{"s1"}`, `{"l1"}`, `{"h1"}`, `{"c1"}`, `{"s1", "s2"}`} {
+				jobs = append(jobs, fw.TLCJob{Name: fmt.Sprintf("prog:%d", i), Module: "KVProg", Cfg: "KVProg.cfg", Workers: 1,
+					Simulate: num, Depth: 12, Seed: env.Seed + int64(i),
+					Consts: map[string]string{"KEYS": keys, "NP": "3", "NOPS": "3"}})
+			}
 			return jobs
 		},
 		Expand: func(env *fw.Env, src string, raw json.RawMessage) []json.RawMessage {
 			var out []json.RawMessage
+			if strings.HasPrefix(src, "prog:") {
+				var prog [][]step
+				if err := json.Unmarshal(raw, &prog); err != nil {
+					panic(err)
+				}
+				reps := 4
+				if env.Tier == "thorough" {
+					reps = 10
+				}
+				for r := 0; r < reps; r++ {
+					out = append(out, fw.MustJSON(behaviour{Backend: "memory", Prog: prog, Rep: r + 1}))
+				}
+				return out
+			}
 			var steps []step
 			if err := json.Unmarshal(raw, &steps); err != nil {
 				panic(err)
@@ -370,6 +527,76 @@ func main() {
 				out = append(out, fw.MustJSON(map[string]any{"backend": "redis", "steps": steps}))
 			}
 			return out
+		},
+		ExtraBeh: func(env *fw.Env) []json.RawMessage {
+			n := 6
+			if env.Tier == "thorough" {
+				n = 40
+			}
+			var out []json.RawMessage
+			for i := 0; i < n; i++ {
+				out = append(out, fw.MustJSON(behaviour{Backend: "memory", Hammer: "hash", Rep: i + 1}))
+			}
+			return out
+		},
+		SelfTest: func(env *fw.Env, acc []*fw.Trace) []*fw.Trace {
+			// flip one recorded result per trace: found<->not-found, true<->false, n<->n+1
+			var out []*fw.Trace
+			id := 1 << 24
+			for _, t := range acc {
+				if len(out) >= 60 {
+					break
+				}
+				idx := -1
+				for i, e := range t.Events {
+					if r, ok := e["res"].(map[string]any); ok && e["ev"] == "Op" { // sequential traces only: a flipped result of a concurrent history can still be linearizable
+						if r["t"] == "bool" || r["t"] == "int" || r["t"] == "val" {
+							idx = i
+						}
+					}
+				}
+				if idx < 0 {
+					continue
+				}
+				c := &fw.Trace{Status: fw.Realised, Beh: t.Beh}
+				id++
+				c.Beh.ID = id
+				for i, e := range t.Events {
+					ne := fw.Event{}
+					for k, v := range e {
+						ne[k] = v
+					}
+					if i == idx {
+						r := e["res"].(map[string]any)
+						nr := map[string]any{"t": r["t"], "v": r["v"]}
+						switch r["t"] {
+						case "bool":
+							nr["v"] = !(r["v"].(bool))
+						case "int":
+							switch n := r["v"].(type) {
+							case int64:
+								nr["v"] = n + 1
+							case float64:
+								nr["v"] = n + 1
+							}
+						case "val":
+							nr["t"], nr["v"] = "nf", ""
+						}
+						ne["res"] = nr
+					}
+					c.Events = append(c.Events, ne)
+				}
+				out = append(out, c)
+			}
+			return out
+		},
+		JudgeFor: func(t *fw.Trace) (string, string) {
+			var beh behaviour
+			json.Unmarshal(t.Beh.Data, &beh)
+			if beh.Prog != nil || beh.Hammer != "" {
+				return "KVConcTrace", "KVConcTrace.cfg"
+			}
+			return "", ""
 		},
 		Drive:       drive,
 		Parallel:    64,
